@@ -89,7 +89,8 @@ def run(out: Outcome, drv, frontends=None):
     out.rule = ("generated tables (0..10 rows quick / 40 thorough, default / shifted / permuted / string row index, with and without "
                 "z/lat/lon) and configs (1..3 contexts: closed, half-open, gapped, empty, all-covering, absent windows with bounds on, "
                 "just before and just after a row; 1..3 tests per stream incl. neighbour/time/position dependent ones and a probe that "
-                "records its arguments) run through every front end; compared as multisets of canonical ContextResult records against "
+                "records its arguments) run through every front end, every third config also as ONE Config object run on the table and then on "
+                "a second table with an axis dropped; compared as multisets of canonical ContextResult records against "
                 "direct calls on the rows selected by IoosQc.specMask; non-trivial = a window that excludes at least one row")
     rng = gen.rng_for(out.seed, "C05")
     for it in range(n):
@@ -104,6 +105,8 @@ def run(out: Outcome, drv, frontends=None):
         exp = expected_records(tab, ctxs, masks)
         exp_probe = sorted(json.dumps(p, sort_keys=True) for r in exp if r["probe"] for p in r["probe"])
         exp_keys = sorted(key(r) for r in exp)
+        if it % 3 == 0 and tab["n"] > 0:
+            run_config_reuse(out, drv, rng, tab, ctxs, cfg, frontends[it // 3 % len(frontends)])
         fes = list(frontends)
         if tab["n"] > 0 and (out.tier == "thorough" or it % 5 == 0):
             fes += ["netcdf_file", "xarray_file"]
@@ -179,6 +182,46 @@ def run_qcconfig(out, drv, rng, maxn):
         out.violation(f"{WHAT}: QcConfig.run results differ from direct calls on the window rows",
                       {"case": jsonable(case), "observed": {f"{k[0]}.{k[1]}": v for k, v in got.items()},
                        "expected": {f"{k[0]}.{k[1]}": v for k, v in want.items()}})
+
+
+def run_config_reuse(out, drv, rng, tab, ctxs, cfg, fe):
+    """ONE Config object run on the table and then on a second table that offers fewer inputs (an axis dropped, other
+    values): the second run must be what direct calls on the second table give — nothing remembered from the first."""
+    import copy
+
+    from ioos_qc.config import Config
+
+    tab2 = copy.deepcopy(tab)
+    dropped = [a for a in list(tab2["axes"]) if rng.random() < 0.6]
+    if "lat" in dropped or "lon" in dropped:
+        dropped = sorted(set(dropped) | {"lat", "lon"} & set(tab2["axes"]))
+    for a in dropped:
+        tab2["axes"].pop(a, None)
+    for sid, col in tab2["cols"].items():
+        tab2["cols"][sid] = [None if v is None else v + 1 for v in col]
+    wins = [[c["window"][0], c["window"][1]] for c in ctxs]
+    a, = drv.run([{"kind": "window", "t": tab2["t"], "windows": wins}])
+    masks = a["spec"]
+    case = {"frontend": fe, "table": tab2, "contexts": ctxs, "same_Config_object_first_run_on": tab, "dropped_axes": dropped}
+    try:
+        with warnings.catch_warnings():
+            warnings.simplefilter("ignore")
+            cobj = Config(cfg)
+        observed_records(fe, tab, cobj)
+        exp = expected_records(tab2, ctxs, masks)
+        obs, probe = observed_records(fe, tab2, cobj)
+    except Exception as e:  # noqa: BLE001
+        out.record(case, True, [f"fe:{fe}", "config-reuse", "error"])
+        out.violation(f"{WHAT}: {fe} stream raised {type(e).__name__}: {e} when one Config object was run on a second table",
+                      {"case": jsonable(case)})
+        return
+    out.record(case, True, [f"fe:{fe}", "config-reuse", f"dropped:{len(dropped)}"])
+    exp_keys, obs_keys = sorted(key(r) for r in exp), sorted(key(r) for r in obs)
+    if exp_keys != obs_keys:
+        out.violation(f"{WHAT}: a Config object already run on another table gives, on {fe}, results that differ from direct calls "
+                      f"on the window rows of the second table",
+                      {"case": jsonable(case), "observed_only": [json.loads(k) for k in obs_keys if k not in exp_keys][:3],
+                       "expected_only": [json.loads(k) for k in exp_keys if k not in obs_keys][:3]})
 
 
 def classify(fe, tab, ctxs, masks, err):
